@@ -423,6 +423,15 @@ func (env *CEnv) field(x V, name string) V {
 
 func seqEq(env *CEnv, a, b *Seq) string {
 	lenEq := eq(a.Len, b.Len)
+	if mx := maxOf(a.Max, b.Max); mx > 0 && mx <= 24 {
+		// statically bounded: one conjunct per position, no quantifier
+		cs := []string{lenEq}
+		for i := 0; i < mx; i++ {
+			k := bvLit(uint64(i), 64)
+			cs = append(cs, implies(app("bvult", k, a.Len), eq(a.Byte(k), b.Byte(k))))
+		}
+		return and(cs...)
+	}
 	if env.prove && env.pol {
 		j := env.st.freshConst("sk_j", sortBV(64))
 		env.st.addPool(64, j)
@@ -481,7 +490,15 @@ func (env *CEnv) evalBin(e *CExpr) V {
 		if l.Max > 0 && r.Max > 0 {
 			mx = l.Max + r.Max
 		}
-		return V{K: KSeq, Seq: &Seq{Max: mx, Len: bvadd(l.Len, r.Len), Byte: func(i string) string {
+		var parts []*Seq
+		for _, s := range []*Seq{l, r} {
+			if len(s.Parts) > 0 {
+				parts = append(parts, s.Parts...)
+			} else {
+				parts = append(parts, s)
+			}
+		}
+		return V{K: KSeq, Seq: &Seq{Parts: parts, Max: mx, Len: bvadd(l.Len, r.Len), Byte: func(i string) string {
 			return ite(app("bvult", i, l.Len), l.Byte(i), r.Byte(bvsubw(i, l.Len, 64)))
 		}}}
 	}
@@ -816,7 +833,7 @@ func (env *CEnv) call(e *CExpr) V {
 		a, b := arg(1), arg(2)
 		if a.K == KSeq || b.K == KSeq {
 			sa, sb := env.toSeq(a), env.toSeq(b)
-			return V{K: KSeq, Seq: &Seq{Len: ite(c.T, sa.Len, sb.Len), Byte: func(i string) string { return ite(c.T, sa.Byte(i), sb.Byte(i)) }}}
+			return V{K: KSeq, Seq: &Seq{Cond: c.T, Then: sa, Else: sb, Len: ite(c.T, sa.Len, sb.Len), Byte: func(i string) string { return ite(c.T, sa.Byte(i), sb.Byte(i)) }}}
 		}
 		if a.K == KBV && b.K == KBV && a.W == 0 && b.W == 0 {
 			a, b = coerce(a, 64, true), coerce(b, 64, true)
@@ -848,15 +865,25 @@ func (env *CEnv) call(e *CExpr) V {
 		signed := strings.HasPrefix(e.Tok, "loadi")
 		w, _ := strconv.Atoi(strings.TrimLeft(e.Tok, "loadi"))
 		return vBV(env.loadN(sp, p.T, w/8), w, signed)
+	case "loadtime":
+		p := arg(0)
+		tt := env.st.x.namedType("time.Time")
+		if tt == nil {
+			cfail("time.Time is not loaded")
+		}
+		return env.loadTyped(p, tt)
 	case "loadstr", "loadslice":
 		p := arg(0)
 		sp := spaceOf(p, "H")
 		ptr := vPtr(env.loadN(sp, p.T, 8), &Prov{Space: "B", Region: "owned"})
 		ln := vBV(env.loadN(sp, bvadd(p.T, bvLit(8, 64)), 8), 64, true)
+		// memory holds well-formed Go values: 0 <= len (<= cap) < 2^40
+		env.st.assume(and(app("bvsle", bvLit(0, 64), ln.T), app("bvult", ln.T, bvLit(maxLen, 64))))
 		if e.Tok == "loadstr" {
 			return vTuple(ptr, ln)
 		}
 		cp := vBV(env.loadN(sp, bvadd(p.T, bvLit(16, 64)), 8), 64, true)
+		env.st.assume(and(app("bvsle", ln.T, cp.T), app("bvult", cp.T, bvLit(maxLen, 64))))
 		return vTuple(ptr, ln, cp)
 	case "sext64", "zext64", "u64", "i64", "u32", "i32", "u16", "i16", "u8", "i8", "int", "uint64", "int64", "uint32", "int32", "uint16", "int16", "uint8", "int8", "byte", "uint":
 		v := arg(0)
@@ -1105,6 +1132,41 @@ func (env *CEnv) ghostCall(e *CExpr) V {
 		cfail("ghost call %s: callee modifies memory", key)
 	}
 	st := env.st
+	// the same ghost call (same callee, arguments and memories) denotes the same value
+	memoKey := key
+	var addKey func(a V)
+	addKey = func(a V) {
+		var ls []V
+		leaves(a, &ls)
+		for _, l := range ls {
+			if l.Box != nil {
+				memoKey += "|box("
+				addKey(*l.Box)
+				memoKey += ")"
+				continue
+			}
+			memoKey += "|" + l.T
+		}
+	}
+	for _, a := range args {
+		addKey(a)
+	}
+	for _, sp := range []string{"H", "B", "G"} {
+		if m := env.mem(sp); m != nil {
+			memoKey += "|" + m.term
+		}
+	}
+	if st.ghostMemo == nil {
+		st.ghostMemo = map[string][]V{}
+	}
+	if r, ok := st.ghostMemo[memoKey]; ok {
+		if len(r) != 1 {
+			t := vTuple(r...)
+			t.Typ = sig.Results()
+			return t
+		}
+		return r[0]
+	}
 	var results []V
 	if con.Pure {
 		// memory-dependent pure functions see the memory current for this evaluation
@@ -1150,6 +1212,7 @@ func (env *CEnv) ghostCall(e *CExpr) V {
 		}
 		st.assume(t)
 	}
+	st.ghostMemo[memoKey] = results
 	if len(results) != 1 {
 		t := vTuple(results...)
 		t.Typ = sig.Results()
@@ -1161,7 +1224,7 @@ func (env *CEnv) ghostCall(e *CExpr) V {
 // loadTyped reads a value of Go type t at addr in the memory current for this evaluation.
 func (env *CEnv) loadTyped(addr V, t types.Type) V {
 	space := spaceOf(addr, "H")
-	return build(t, func(ls leafShape) V {
+	return env.st.withTypeInv(t, build(t, func(ls leafShape) V {
 		a := bvadd(addr.T, bvLit(uint64(ls.Off), 64))
 		switch ls.K {
 		case KBool:
@@ -1178,5 +1241,18 @@ func (env *CEnv) loadTyped(addr V, t types.Type) V {
 			return vPtr(t, &Prov{Space: "H", Region: reg})
 		}
 		return vBV(env.loadN(space, a, ls.W/8), ls.W, ls.Signed)
-	})
+	}))
+}
+
+func maxOf(a, b int) int {
+	if a > 0 && b > 0 {
+		if a < b {
+			return a
+		}
+		return b
+	}
+	if a > 0 {
+		return a
+	}
+	return b
 }
